@@ -125,7 +125,7 @@ func runC18(c *Ctx) {
 		calls = append(calls, cl)
 	}
 	cs.LinkFor = func(n int) *Link {
-		l := &Link{BaseLatency: time.Duration(pickFrom(t, 1, 5, 30)) * time.Millisecond, Jitter: time.Duration(pickFrom(t, 0, 5, 40)) * time.Millisecond, Tape: t, Frag: t.Bool(1, 3)}
+		l := &Link{BaseLatency: time.Duration(pickFrom(t, 1, 5, 30)) * time.Millisecond, Jitter: time.Duration(pickFrom(t, 0, 5, 40)) * time.Millisecond, Tape: t, Frag: t.Bool(1, 3), Coalesce: t.Bool(1, 2)}
 		if t.Bool(1, 3) {
 			l.SlowWrite = func(side int) time.Duration {
 				if side == 0 && t.Bool(1, 3) {
